@@ -266,6 +266,15 @@ func witnesses() map[string]func(*core.Case) {
 			c.Sample(rs)
 			execRawSend(c, rs)
 		},
+		// the peer's <close/> arrives while Write waits for an acknowledgement: the
+		// close handler flushes the same buffer again through the shared writer
+		"ibb:seq:numbering": func(c *core.Case) {
+			rs := &rawSendCase{Kind: "raw-send", PayloadSeed: 1, Carrier: "iq", Block: 4, CloseAt: 1,
+				Dir: dirSpec{Len: 8, LenClass: "block", Part: "flush-each", Steps: []wstep{{N: 4, Flush: true}, {N: 4, Flush: true}}, NSteps: 2}}
+			rs.Dir.StepsHead = rs.Dir.Steps
+			c.Sample(rs)
+			execRawSend(c, rs)
+		},
 		"ibb:refusal:closed-sid-lib:wrong-answer": rawRecv(&rawRecvCase{Kind: "raw-recv", PayloadSeed: 1, Carrier: "iq", Block: 64, End: "peer-close",
 			Steps: []rawStep{{Op: "data", N: 3}, {Op: "closed-sid-lib", N: 3, Seq: 1}}}),
 		// an empty data packet wakes the reader, which reports EOF on an open stream
